@@ -13,49 +13,66 @@ Metadata-only accounts (`saveMeta` on a new address) live at the `World` level
 namespace Ledger.C18store
 open Ledger.Base Ledger.Core Ledger.Spec
 
-/-- In every reachable store, an account's row carries exactly the fold over the committed
-    transactions: (earliest effective timestamp among the transactions involving it — as a
-    posting side or through account metadata —, insertion date of the first one); no row iff
-    no committed transaction involves it. -/
+/-- In every reachable store (commits with arbitrary timestamps, metadata saved directly on
+    accounts, locks, reverted marks), an account's row carries exactly the fold over the
+    operations: a commit involving it — as a posting side or through account metadata —
+    creates it with (timestamp, insertion date) or lowers its first usage to an earlier
+    timestamp; metadata saved on a missing account creates it with both dates = the write's
+    date; nothing else touches the dates. -/
 theorem accounts_follow_history (ops : List StoreOp) (st : Store) (h : runOps ops = .ok st) (a : String) :
-    (st.accounts.get? a).map AccountRow.dates = datesOf (commitsOf ops) a :=
+    (st.accounts.get? a).map AccountRow.dates = datesOfOps ops a :=
   (AccountsInv_runOps h).dates a
 
-/-- An account is listed iff some committed transaction involves it. -/
+/-- An account is listed iff some committed transaction involves it or metadata was saved on
+    it (metadata-only accounts included). -/
 theorem account_listed_iff (ops : List StoreOp) (st : Store) (h : runOps ops = .ok st) (a : String) :
-    st.accounts.contains a = true ↔ ∃ t ∈ commitsOf ops, t.involves a = true := by
+    st.accounts.contains a = true ↔
+      ((∃ t, StoreOp.commit t ∈ ops ∧ t.involves a = true) ∨ (∃ at_ md, StoreOp.saveAccountMeta a at_ md ∈ ops)) := by
   have hd := accounts_follow_history ops st h a
+  have hnone : datesOfOps ops a = none ↔ ¬ ((∃ t, StoreOp.commit t ∈ ops ∧ t.involves a = true) ∨
+      (∃ at_ md, StoreOp.saveAccountMeta a at_ md ∈ ops)) := by
+    rw [datesOfOps_none_iff]
+    constructor
+    · intro hall hex
+      rcases hex with ⟨t, ht, hi⟩ | ⟨at_, md, hm⟩
+      · have := hall _ ht; simp only [StoreOp.touches] at this; rw [hi] at this; simp at this
+      · have := hall _ hm; simp [StoreOp.touches] at this
+    · intro hne o ho
+      cases ht : o.touches a with
+      | false => rfl
+      | true =>
+        exfalso; apply hne
+        cases o with
+        | commit t => exact Or.inl ⟨t, ho, ht⟩
+        | saveAccountMeta a' at_ md =>
+          simp only [StoreOp.touches, beq_iff_eq] at ht
+          subst ht; exact Or.inr ⟨at_, md, ho⟩
+        | lock keys => simp [StoreOp.touches] at ht
+        | markReverted id x => simp [StoreOp.touches] at ht
   unfold Map.contains
   constructor
   · intro hs
     apply Classical.byContradiction
     intro hne
-    have : datesOf (commitsOf ops) a = none := by
-      rw [datesOf_none_iff]
-      intro t ht
-      cases hi : t.involves a with
-      | false => rfl
-      | true => exact absurd ⟨t, ht, hi⟩ hne
-    rw [this] at hd
+    rw [hnone.mpr hne] at hd
     cases hg : st.accounts.get? a with
     | none => rw [hg] at hs; simp at hs
     | some r => rw [hg] at hd; simp at hd
-  · rintro ⟨t, ht, hi⟩
+  · intro hex
     cases hg : st.accounts.get? a with
     | some r => rfl
     | none =>
       rw [hg] at hd
-      have : datesOf (commitsOf ops) a = none := by simpa using hd.symm
-      rw [datesOf_none_iff] at this
-      rw [this t ht] at hi
-      simp at hi
+      have : datesOfOps ops a = none := by simpa using hd.symm
+      exact absurd hex (hnone.mp this)
 
-/-- One more committed transaction: the first usage is lowered to the transaction's timestamp
-    when it is earlier (back-dated), never raised; the insertion date never changes. -/
-theorem first_usage_is_min (a : String) (fu ins : Int) (t : TxIn) :
-    ∃ fu', datesStep a (some (fu, ins)) t = some (fu', ins) ∧ fu' ≤ fu ∧
-      (t.involves a = true → fu' ≤ t.timestamp) :=
-  datesStep_mono a fu ins t
+/-- One more operation on an existing account: the first usage is lowered to a committed
+    transaction's timestamp when that is earlier (back-dated), never raised; the insertion date
+    never changes. -/
+theorem first_usage_is_min (a : String) (fu ins : Int) (o : StoreOp) :
+    ∃ fu', accountEventStep a (some (fu, ins)) o = some (fu', ins) ∧ fu' ≤ fu ∧
+      (∀ t, o = .commit t → t.involves a = true → fu' ≤ t.timestamp) :=
+  accountEventStep_mono a fu ins o
 
 /-- Claim of the property as worded ("first usage is the earliest effective timestamp among
     the transactions involving the account"), over whole histories incl. reverts — kept
@@ -82,19 +99,22 @@ theorem first_usage_is_min_counterexample : ¬ first_usage_is_earliest := by
 example : ((World.run {} [.tx 10 (some 100) [⟨"world", "a", 5, "USD"⟩] "" [] [] true, .revert 20 1 true false []]).1.store.accounts.get? "a").map
     (·.firstUsage) = some 100 := by decide
 
-/-- What does hold: the first usage stored for an account is the earliest timestamp among the
-    committed transactions that upsert their accounts (every transaction except the ones a
-    revert commits) and involve it — a lower bound of all of them, attained by one. -/
+/-- What does hold: the first usage stored for an account is a lower bound of the timestamps
+    of the committed transactions that upsert their accounts (every transaction except the ones
+    a revert commits) and involve it, and it is attained: by one of those transactions, or by
+    the date of the metadata write that created the account. -/
 theorem first_usage_is_min_partial (ops : List StoreOp) (st : Store) (h : runOps ops = .ok st) (a : String)
     (r : AccountRow) (hr : st.accounts.get? a = some r) :
-    (∀ t ∈ commitsOf ops, t.involves a = true → r.firstUsage ≤ t.timestamp) ∧
-    (∃ t ∈ commitsOf ops, t.involves a = true ∧ t.timestamp = r.firstUsage) := by
+    (∀ t, StoreOp.commit t ∈ ops → t.involves a = true → r.firstUsage ≤ t.timestamp) ∧
+    ((∃ t, StoreOp.commit t ∈ ops ∧ t.involves a = true ∧ t.timestamp = r.firstUsage) ∨
+     (∃ md, StoreOp.saveAccountMeta a r.firstUsage md ∈ ops)) := by
   have hd := accounts_follow_history ops st h a
   rw [hr] at hd
-  have hd' : (commitsOf ops).foldl (datesStep a) none = some (r.firstUsage, r.insertionDate) := hd.symm
-  refine ⟨(foldl_datesStep_bound a _ none _ _ hd').1, ?_⟩
-  rcases foldl_datesStep_attained a _ none _ _ hd' with h1 | ⟨i0, h2⟩
-  · exact h1
+  have hd' : ops.foldl (accountEventStep a) none = some (r.firstUsage, r.insertionDate) := hd.symm
+  refine ⟨(foldl_accountEventStep_bound a _ none _ _ hd').1, ?_⟩
+  rcases foldl_accountEventStep_attained a _ none _ _ hd' with h1 | h1 | ⟨i0, h2⟩
+  · exact Or.inl h1
+  · exact Or.inr h1
   · simp at h2
 
 /-- The table stays key-sorted without duplicates. -/
@@ -102,8 +122,10 @@ theorem accounts_wf (ops : List StoreOp) (st : Store) (h : runOps ops = .ok st) 
   (AccountsInv_runOps h).wf
 
 example : (runOps [.commit { postings := [⟨"world", "a", 10, "USD"⟩], timestamp := 5, insertedAt := 7 },
-                   .commit { postings := [⟨"a", "b", 4, "USD"⟩], timestamp := 1, insertedAt := 8, accountMetadata := [("m", [("k", "v")])] }]).toOption.map
+                   .saveAccountMeta "only:meta" 6 [("x", "y")],
+                   .commit { postings := [⟨"a", "b", 4, "USD"⟩], timestamp := 1, insertedAt := 8, accountMetadata := [("m", [("k", "v")])] },
+                   .saveAccountMeta "a" 9 [("x", "y")]]).toOption.map
             (fun st => st.accounts.map (fun e => (e.1, e.2.firstUsage, e.2.insertionDate))) =
-          some [("a", 1, 7), ("b", 1, 8), ("m", 1, 8), ("world", 5, 7)] := by decide
+          some [("a", 1, 7), ("b", 1, 8), ("m", 1, 8), ("only:meta", 6, 6), ("world", 5, 7)] := by decide
 
 end Ledger.C18store
